@@ -48,15 +48,20 @@ def run(ctx):
     fors = [x for x in H.walk(body) if x.get("k") == "for"]
     outer = None
     for f in fors:
-        it = H.strip(f["iter"])
-        if it.get("k") == "struct" and it.get("adt", "").startswith("core::ops::range::") and f.get("iter_ty", "").endswith("<i64>"):
-            outer = f
-        elif it.get("k") == "mcall" and "i64" in f.get("iter_ty", ""):
+        if "i64" in f.get("iter_ty", ""):
             outer = f
     if outer is None:
         ctx.anchor_lost("expand", "no loop over the integer range in expand_one_pass")
         return
     it = H.strip(outer["iter"])
+    # a range bound to a local first (`let values = start..end; for val in values`) is resolved to its initialiser
+    for _ in range(3):
+        if it.get("k") == "path" and local_of(it):
+            inits = [s for s in H.lets(body) if s["pat"]["k"] == "bind" and H.bind_key(s["pat"]) == local_of(it) and s.get("init") is not None]
+            if len(inits) == 1:
+                it = H.strip(inits[0]["init"])
+                continue
+        break
     if it.get("k") == "struct" and it["adt"] == "core::ops::range::Range":
         fl = {x["n"]: local_of(x["e"]) for x in it["fields"]}
         if fl.get("start") == start_k and fl.get("end") == end_k:
